@@ -50,3 +50,536 @@ pub fn lower_reversal(xs: &[f64], i: usize, left: usize, right: usize) -> bool {
 	let xp = xs[p];
 	xs[lo..p].iter().all(|&x| x >= xp) && xs[p + 1..=i].iter().all(|&x| x > xp)
 }
+
+// ---------------------------------------------------------------------------------------------
+// Method references (DESIGN §3.1, Appendix A.1). Streaming objects that keep the whole input history
+// and recompute finite-window quantities from scratch with compensated sums; recurrences are run in
+// f64. Every output is an `Ap` whose radius is the error model of the method's algorithm class.
+
+use crate::errm::radius;
+use crate::reg::{Class, In, Par};
+
+/// reference of a method with scalar (or pair / candle) input and scalar output
+pub trait RefM {
+	/// `impl_out` is the implementation's output of this step; it is used only to re-synchronise a
+	/// recursive reference after a step where the formula was undefined within the allowance
+	fn next(&mut self, x: &In, impl_out: f64) -> Ap;
+}
+
+fn inv(x: &In) -> f64 {
+	match x {
+		In::V(v) => *v as f64,
+		In::P(a, _) => *a as f64,
+		In::C(c) => c.close as f64,
+	}
+}
+
+/// history with the construction value as infinite prehistory
+#[derive(Clone, Debug)]
+pub struct Hist {
+	pub init: f64,
+	pub xs: Vec<f64>,
+	pub mag: f64,
+}
+impl Hist {
+	pub fn new(init: f64) -> Self {
+		Self { init, xs: Vec::new(), mag: init.abs() }
+	}
+	pub fn push(&mut self, x: f64) {
+		self.mag = self.mag.max(x.abs());
+		self.xs.push(x);
+	}
+	/// number of values pushed
+	pub fn t(&self) -> usize {
+		self.xs.len()
+	}
+	/// i-th newest (0 = newest)
+	#[inline]
+	pub fn ago(&self, i: usize) -> f64 {
+		let n = self.xs.len();
+		if i < n {
+			self.xs[n - 1 - i]
+		} else {
+			self.init
+		}
+	}
+	/// last n values, newest first
+	pub fn window(&self, n: usize) -> impl Iterator<Item = f64> + '_ {
+		(0..n).map(move |i| self.ago(i))
+	}
+}
+
+pub fn wma_weights(n: usize) -> Vec<f64> {
+	// newest first: n, n-1, ..., 1
+	(0..n).map(|i| (n - i) as f64).collect()
+}
+pub fn swma_weights(n: usize) -> Vec<f64> {
+	// symmetric triangle 1,2,..,ceil(n/2),floor(n/2),..,2,1 (newest first is the same by symmetry for odd n;
+	// for even n: oldest->newest 1,2,..,n/2,n/2,..,2,1 also symmetric)
+	(0..n).map(|i| ((i + 1).min(n - i)) as f64).collect()
+}
+/// least-squares line through (-i, x_i), i = 0..n-1 (i = age), evaluated at 0: weights on x_i (newest first)
+pub fn linreg_weights(n: usize) -> Vec<f64> {
+	let nf = n as f64;
+	// value at 0 = mean_y - slope * mean_x with abscissa -i: closed form w_i = (2(2n-1) - 6i) / (n(n+1))
+	(0..n).map(|i| (2.0 * (2.0 * nf - 1.0) - 6.0 * i as f64) / (nf * (nf + 1.0))).collect()
+}
+
+fn weighted(h: &Hist, w: &[f64]) -> (f64, f64) {
+	// returns (sum w_i x_i / sum w_i, sum|w_i| / |sum w_i|)
+	let num = ksum(w.iter().enumerate().map(|(i, wi)| wi * h.ago(i)));
+	let den = ksum(w.iter().cloned());
+	let abs = ksum(w.iter().map(|x| x.abs()));
+	(num / den, abs / den.abs())
+}
+
+pub struct RefFir {
+	pub h: Hist,
+	pub w: Vec<f64>,
+	pub class: Class,
+	pub n: usize,
+}
+impl RefM for RefFir {
+	fn next(&mut self, x: &In, _o: f64) -> Ap {
+		self.h.push(inv(x));
+		let (v, amp) = weighted(&self.h, &self.w);
+		if !amp.is_finite() {
+			return Ap::undefined();
+		}
+		Ap::new(v, radius(self.class, self.n as f64, self.h.t() as f64, self.h.mag * amp.max(1.0), 4.0))
+	}
+}
+
+pub struct RefTrima {
+	h: Hist,
+	inner: Vec<f64>,
+	n: usize,
+}
+impl RefM for RefTrima {
+	fn next(&mut self, x: &In, _o: f64) -> Ap {
+		self.h.push(inv(x));
+		let n = self.n;
+		self.inner.push(ksum(self.h.window(n)) / n as f64);
+		let t = self.inner.len();
+		let v = ksum((0..n).map(|i| if i < t { self.inner[t - 1 - i] } else { self.h.init })) / n as f64;
+		Ap::new(v, 2.0 * radius(Class::Accum, n as f64, t as f64, self.h.mag, 4.0))
+	}
+}
+
+pub struct RefHma {
+	h: Hist,
+	d: Vec<f64>,
+	n: usize,
+}
+impl RefM for RefHma {
+	fn next(&mut self, x: &In, _o: f64) -> Ap {
+		self.h.push(inv(x));
+		let n = self.n;
+		let (w1, _) = weighted(&self.h, &wma_weights(n / 2));
+		let (w2, _) = weighted(&self.h, &wma_weights(n));
+		self.d.push(2.0 * w1 - w2);
+		let s = (n as f64).sqrt() as usize;
+		let t = self.d.len();
+		let ws = wma_weights(s);
+		let num = ksum(ws.iter().enumerate().map(|(i, w)| w * if i < t { self.d[t - 1 - i] } else { self.h.init }));
+		let v = num / ksum(ws.iter().cloned());
+		let tt = t as f64;
+		let e = 3.0 * radius(Class::Nested, n as f64, tt, self.h.mag, 4.0) + radius(Class::Nested, s as f64, tt, 3.0 * self.h.mag, 4.0);
+		Ap::new(v, e)
+	}
+}
+
+pub struct RefVwma {
+	p: Hist,
+	v: Hist,
+	n: usize,
+}
+impl RefM for RefVwma {
+	fn next(&mut self, x: &In, _o: f64) -> Ap {
+		let (a, b) = match x {
+			In::P(a, b) => (*a as f64, *b as f64),
+			_ => panic!("harness: VWMA wants pairs"),
+		};
+		self.p.push(a);
+		self.v.push(b);
+		let n = self.n;
+		let t = self.p.t() as f64;
+		let num = ksum((0..n).map(|i| self.p.ago(i) * self.v.ago(i)));
+		let den = ksum(self.v.window(n));
+		let numa = Ap::new(num, radius(Class::Accum, n as f64, t, n as f64 * self.p.mag * self.v.mag, 6.0));
+		let dena = Ap::new(den, radius(Class::Accum, n as f64, t, n as f64 * self.v.mag, 4.0));
+		numa / dena
+	}
+}
+
+pub struct RefWin {
+	h: Hist,
+	n: usize,
+	kind: &'static str,
+}
+impl RefM for RefWin {
+	fn next(&mut self, x: &In, _o: f64) -> Ap {
+		self.h.push(inv(x));
+		let n = self.n;
+		let nf = n as f64;
+		let t = self.h.t() as f64;
+		let m = self.h.mag;
+		match self.kind {
+			"Integral" => {
+				if n == 0 {
+					// cumulative: plain prefix sum starting from 0
+					let mut part = 0.0f64;
+					let mut k = crate::ap::KSum::new();
+					for x in &self.h.xs {
+						k.add(*x);
+						part = part.max(k.get().abs());
+					}
+					Ap::new(k.get(), radius(Class::Cumulative, 1.0, t, part.max(m), 2.0))
+				} else {
+					Ap::new(ksum(self.h.window(n)), radius(Class::Accum, nf, t, nf * m, 4.0))
+				}
+			}
+			"Derivative" => {
+				let v = (self.h.ago(0) - self.h.ago(n)) / nf;
+				Ap::new(v, C * EPS * (3.0 * v.abs() + 2.0 * EPS * m / nf) + crate::ap::TINY)
+			}
+			"Momentum" => {
+				let v = self.h.ago(0) - self.h.ago(n);
+				Ap::new(v, C * EPS * v.abs() + crate::ap::TINY)
+			}
+			"RateOfChange" => {
+				let a = Ap::exact(self.h.ago(0));
+				let b = Ap::exact(self.h.ago(n));
+				let r = (a - b) / b;
+				if r.is_undefined() {
+					r
+				} else {
+					Ap::new(r.v, C * r.e)
+				}
+			}
+			"Past" => Ap::exact(self.h.ago(n)),
+			"StDev" => {
+				let mean = ksum(self.h.window(n)) / nf;
+				let var = ksum(self.h.window(n).map(|x| (x - mean) * (x - mean))) / (nf - 1.0);
+				let va = Ap::new(var, radius(Class::Accum, nf, t, 2.0 * m * m, 8.0));
+				va.abs().sqrt()
+			}
+			"MeanAbsDev" => {
+				let mean = ksum(self.h.window(n)) / nf;
+				let v = ksum(self.h.window(n).map(|x| (x - mean).abs())) / nf;
+				Ap::new(v, radius(Class::Accum, nf, t, m, 4.0) + radius(Class::Direct, nf, t, m, 4.0))
+			}
+			"MedianAbsDev" => {
+				let mut s: Vec<f64> = self.h.window(n).collect();
+				s.sort_by(|a, b| a.partial_cmp(b).unwrap());
+				let med = (s[n / 2] + s[(n - 1) / 2]) * 0.5;
+				let v = ksum(s.iter().map(|x| (x - med).abs())) / nf;
+				Ap::new(v, radius(Class::Direct, nf, t, m, 6.0))
+			}
+			"CCI" => {
+				let mean = ksum(self.h.window(n)) / nf;
+				let mad = ksum(self.h.window(n).map(|x| (x - mean).abs())) / nf;
+				let e_mean = radius(Class::Accum, nf, t, m, 4.0);
+				let mada = Ap::new(mad, e_mean + radius(Class::Direct, nf, t, m, 4.0));
+				let num = Ap::new(self.h.ago(0) - mean, e_mean + C * EPS * m);
+				match mada.is_zero() {
+					Tri::Yes => Ap::exact(0.0),
+					Tri::No if mada.lo() > 0.0 => num / mada,
+					// |x - mean| <= n * MAD always, and 0 is returned when MAD is not positive
+					_ => Ap::from_interval(-nf, nf),
+				}
+			}
+			"LinearVolatility" => {
+				// sum of the last n |x_i - x_{i-1}|; differences before the stream are 0, the first is |x_0 - init|
+				let tt = self.h.t();
+				let v = ksum((0..n).filter(|i| *i < tt).map(|i| (self.h.ago(i) - self.h.ago(i + 1)).abs()));
+				Ap::new(v, radius(Class::Accum, nf, t, 2.0 * nf * m, 4.0))
+			}
+			_ => panic!("harness: unknown windowed reference {}", self.kind),
+		}
+	}
+}
+
+pub struct RefConv {
+	h: Hist,
+	w: Vec<f64>,
+}
+impl RefM for RefConv {
+	fn next(&mut self, x: &In, _o: f64) -> Ap {
+		self.h.push(inv(x));
+		let m = self.w.len();
+		// last weight on the newest value
+		let num = ksum((0..m).map(|i| self.w[m - 1 - i] * self.h.ago(i)));
+		let den = ksum(self.w.iter().cloned());
+		let wabs = ksum(self.w.iter().map(|x| x.abs()));
+		let numa = Ap::new(num, C * EPS * wabs * self.h.mag * (m as f64 + 4.0) + crate::ap::TINY);
+		let dena = Ap::new(den, C * EPS * wabs * (m as f64 + 2.0));
+		numa / dena
+	}
+}
+
+/// EMA-family recurrences, run in f64. The radius follows the same contraction as the value:
+/// e' = (1-a) e + C eps (|x| + |y|) per stage, so it forgets old magnitudes geometrically like the signal does.
+pub struct RefEma {
+	kind: &'static str,
+	alpha: f64,
+	s: [f64; 3],
+	e: [f64; 3],
+}
+impl RefM for RefEma {
+	fn next(&mut self, x: &In, _o: f64) -> Ap {
+		let x = inv(x);
+		let a = self.alpha;
+		let k = C * EPS * 3.0;
+		// the update y + a (x - y) rounds at the magnitude of x, of the old y and of the new y
+		let o0 = self.s[0].abs();
+		self.s[0] += a * (x - self.s[0]);
+		self.e[0] = (1.0 - a) * self.e[0] + k * (x.abs() + o0 + self.s[0].abs()) + crate::ap::TINY;
+		let o1 = self.s[1].abs();
+		self.s[1] += a * (self.s[0] - self.s[1]);
+		self.e[1] = (1.0 - a) * self.e[1] + a * self.e[0] + k * (self.s[0].abs() + o1 + self.s[1].abs()) + crate::ap::TINY;
+		let o2 = self.s[2].abs();
+		self.s[2] += a * (self.s[1] - self.s[2]);
+		self.e[2] = (1.0 - a) * self.e[2] + a * self.e[1] + k * (self.s[1].abs() + o2 + self.s[2].abs()) + crate::ap::TINY;
+		let (e, ee, eee) = (self.s[0], self.s[1], self.s[2]);
+		let (r1, r2, r3) = (self.e[0], self.e[1], self.e[2]);
+		let (v, rad) = match self.kind {
+			"EMA" | "RMA" | "WSMA" => (e, r1),
+			"DMA" => (ee, r2),
+			"TMA" => (eee, r3),
+			"DEMA" => (2.0 * e - ee, 2.0 * r1 + r2 + k * (e.abs() + ee.abs())),
+			"TEMA" => (3.0 * (e - ee) + eee, 3.0 * r1 + 3.0 * r2 + r3 + k * 3.0 * (e.abs() + ee.abs() + eee.abs())),
+			_ => panic!("harness"),
+		};
+		Ap::new(v, rad)
+	}
+}
+
+pub struct RefTsi {
+	last: f64,
+	a_short: f64,
+	a_long: f64,
+	m: [f64; 2],
+	me: [f64; 2],
+	a: [f64; 2],
+	ae: [f64; 2],
+}
+impl RefM for RefTsi {
+	fn next(&mut self, x: &In, _o: f64) -> Ap {
+		let x = inv(x);
+		let mom = x - self.last;
+		self.last = x;
+		let k = C * EPS * 3.0;
+		let e0 = EPS * mom.abs();
+		let stage = |s: &mut [f64; 2], e: &mut [f64; 2], input: f64, al: f64, ash: f64| {
+			let o0 = s[0].abs();
+			s[0] += al * (input - s[0]);
+			e[0] = (1.0 - al) * e[0] + al * e0 + k * (input.abs() + o0 + s[0].abs()) + crate::ap::TINY;
+			let o1 = s[1].abs();
+			s[1] += ash * (s[0] - s[1]);
+			e[1] = (1.0 - ash) * e[1] + ash * e[0] + k * (s[0].abs() + o1 + s[1].abs()) + crate::ap::TINY;
+		};
+		stage(&mut self.m, &mut self.me, mom, self.a_long, self.a_short);
+		stage(&mut self.a, &mut self.ae, mom.abs(), self.a_long, self.a_short);
+		let num = Ap::new(self.m[1], self.me[1]);
+		let den = Ap::new(self.a[1], self.ae[1]);
+		match den.gtf(0.0) {
+			Tri::Yes => num / den,
+			Tri::No => Ap::exact(0.0),
+			Tri::Maybe => Ap::from_interval(-1.0, 1.0),
+		}
+	}
+}
+
+pub struct RefVidya {
+	h: Hist,
+	n: usize,
+	y: Ap,
+	/// every input so far is a dyadic rational on which all running sums are exact (no residue possible)
+	dyadic: bool,
+}
+impl RefM for RefVidya {
+	fn next(&mut self, x: &In, impl_out: f64) -> Ap {
+		let xv = inv(x);
+		self.h.push(xv);
+		self.dyadic &= xv.abs() <= 16_777_216.0 && (xv * 65536.0).fract() == 0.0;
+		let n = self.n;
+		let t = self.h.t();
+		// changes d_i = x_i - x_{i-1}, d_0 = x_0 - init, earlier 0; last n changes
+		let mut up = crate::ap::KSum::new();
+		let mut dn = crate::ap::KSum::new();
+		let mut cmag = 0.0f64;
+		for i in 0..n.min(t) {
+			let d = self.h.ago(i) - self.h.ago(i + 1);
+			cmag = cmag.max(d.abs());
+			if d > 0.0 {
+				up.add(d);
+			} else {
+				dn.add(-d);
+			}
+		}
+		let (up, dn) = (up.get(), dn.get());
+		// running sums of the last n changes: accumulator error relative to the largest change ever seen
+		let e_acc = radius(Class::Accum, n as f64, t as f64, 2.0 * self.h.mag, 4.0);
+		let f = 2.0 / (n as f64 + 1.0);
+		let res = if up == 0.0 && dn == 0.0 {
+			// no movement in the window: y = x (residues in the implementation's sums make this step ambiguous
+			// unless the sums are exactly zero, which the state oracle of C07/C12 judges)
+			if self.dyadic {
+				// exact sums: the documented rule applies sharply
+				Ap::exact(xv)
+			} else {
+				Ap::exact(xv).hull(if self.y.is_undefined() { Ap::exact(xv) } else { self.y.hull(Ap::exact(xv)) })
+			}
+		} else {
+			let upa = Ap::new(up, e_acc);
+			let dna = Ap::new(dn, e_acc);
+			let c = ((upa - dna) / (upa + dna)).abs();
+			if c.is_undefined() || self.y.is_undefined() {
+				Ap::undefined()
+			} else {
+				// the update is bilinear in (k, y_prev): its extremes over the box are at the corners
+				// not clipped to [0,1] on the upper side: residues in the running sums may push the implementation's
+				// ratio an allowance above 1; overshoot out of the input range is judged by C15's containment monitor
+				let (klo, khi) = (c.lo().max(0.0) * f, c.hi() * f);
+				let (ylo, yhi) = (self.y.lo(), self.y.hi());
+				let mut lo = f64::INFINITY;
+				let mut hi = f64::NEG_INFINITY;
+				for k in [klo, khi] {
+					for yp in [ylo, yhi] {
+						let v = (1.0 - k) * yp + k * xv;
+						lo = lo.min(v);
+						hi = hi.max(v);
+					}
+				}
+				Ap::from_interval(lo, hi).widen(C * EPS * 6.0 * (xv.abs() + ylo.abs().max(yhi.abs())))
+			}
+		};
+		// re-synchronise after an undefined / ambiguous step
+		self.y = if res.is_undefined() || res.e > 1e-3 * (self.h.mag + f64::MIN_POSITIVE) { Ap::rounded(impl_out, 2.0) } else { res };
+		let _ = cmag;
+		res
+	}
+}
+
+pub struct RefCandle {
+	kind: &'static str,
+	n: usize,
+	prev_close: f64,
+	terms: Vec<Ap>,
+	init_term: Ap,
+	mag: f64,
+}
+pub fn clv_ap(c: &yata::core::Candle) -> Ap {
+	let (h, l, cl) = (c.high as f64, c.low as f64, c.close as f64);
+	if h == l {
+		return Ap::exact(0.0);
+	}
+	let m = h.abs().max(l.abs()).max(cl.abs());
+	let num = Ap::new((cl - l) - (h - cl), 6.0 * EPS * m);
+	num / Ap::rounded(h - l, 1.0)
+}
+impl RefM for RefCandle {
+	fn next(&mut self, x: &In, _o: f64) -> Ap {
+		let c = match x {
+			In::C(c) => *c,
+			_ => panic!("harness: candle expected"),
+		};
+		match self.kind {
+			"TR" => {
+				let (h, l, pc) = (c.high as f64, c.low as f64, self.prev_close);
+				self.prev_close = c.close as f64;
+				let v = (h - l).max((h - pc).abs()).max((l - pc).abs());
+				Ap::rounded(v, 2.0)
+			}
+			"ADI" => {
+				let term = clv_ap(&c) * Ap::exact(c.volume as f64);
+				self.mag = self.mag.max(term.mag());
+				self.terms.push(term);
+				let t = self.terms.len();
+				let n = self.n;
+				if n == 0 {
+					let v = ksum(self.terms.iter().map(|a| a.v));
+					let e = ksum(self.terms.iter().map(|a| a.e));
+					let mut part = 0.0f64;
+					let mut k = crate::ap::KSum::new();
+					for a in &self.terms {
+						k.add(a.v);
+						part = part.max(k.get().abs());
+					}
+					Ap::new(v, e + radius(Class::Cumulative, 1.0, t as f64, part.max(self.mag), 2.0))
+				} else {
+					let get = |i: usize| if i < t { self.terms[t - 1 - i] } else { self.init_term };
+					let v = ksum((0..n).map(|i| get(i).v));
+					let e = ksum((0..n).map(|i| get(i).e));
+					Ap::new(v, e + radius(Class::Accum, n as f64, t as f64, n as f64 * self.mag, 4.0))
+				}
+			}
+			_ => panic!("harness"),
+		}
+	}
+}
+
+fn par_len(p: &Par) -> usize {
+	match p {
+		Par::L(l) => *l as usize,
+		_ => 0,
+	}
+}
+
+/// builds the reference of a method (None: no scalar reference for this method)
+pub fn make_ref(name: &str, par: &Par, init: &In) -> Option<Box<dyn RefM>> {
+	let n = par_len(par);
+	let i0 = inv(init);
+	let fir = |w: Vec<f64>, class: Class| -> Option<Box<dyn RefM>> { Some(Box::new(RefFir { h: Hist::new(i0), n: w.len(), w, class })) };
+	let win = |kind: &'static str| -> Option<Box<dyn RefM>> { Some(Box::new(RefWin { h: Hist::new(i0), n, kind })) };
+	let ema = |kind: &'static str, alpha: f64, _nn: f64| -> Option<Box<dyn RefM>> { Some(Box::new(RefEma { kind, alpha, s: [i0; 3], e: [0.0; 3] })) };
+	match name {
+		"SMA" => fir(vec![1.0; n], Class::Accum),
+		"WMA" => fir(wma_weights(n), Class::Nested),
+		"SWMA" => fir(swma_weights(n), Class::Nested),
+		"LinReg" => fir(linreg_weights(n), Class::Nested),
+		"TRIMA" => Some(Box::new(RefTrima { h: Hist::new(i0), inner: Vec::new(), n })),
+		"HMA" => Some(Box::new(RefHma { h: Hist::new(i0), d: Vec::new(), n })),
+		"Conv" => match par {
+			Par::W(w) => Some(Box::new(RefConv { h: Hist::new(i0), w: w.iter().map(|x| *x as f64).collect() })),
+			_ => None,
+		},
+		"VWMA" => match init {
+			In::P(a, b) => Some(Box::new(RefVwma { p: Hist::new(*a as f64), v: Hist::new(*b as f64), n })),
+			_ => None,
+		},
+		"Integral" | "Derivative" | "Momentum" | "RateOfChange" | "Past" | "StDev" | "MeanAbsDev" | "MedianAbsDev" | "CCI" | "LinearVolatility" => win(match name {
+			"Integral" => "Integral",
+			"Derivative" => "Derivative",
+			"Momentum" => "Momentum",
+			"RateOfChange" => "RateOfChange",
+			"Past" => "Past",
+			"StDev" => "StDev",
+			"MeanAbsDev" => "MeanAbsDev",
+			"MedianAbsDev" => "MedianAbsDev",
+			"CCI" => "CCI",
+			_ => "LinearVolatility",
+		}),
+		"EMA" => ema("EMA", 2.0 / (n as f64 + 1.0), n as f64),
+		"DMA" => ema("DMA", 2.0 / (n as f64 + 1.0), n as f64),
+		"TMA" => ema("TMA", 2.0 / (n as f64 + 1.0), n as f64),
+		"DEMA" => ema("DEMA", 2.0 / (n as f64 + 1.0), n as f64),
+		"TEMA" => ema("TEMA", 2.0 / (n as f64 + 1.0), n as f64),
+		"RMA" => ema("RMA", 1.0 / n as f64, 2.0 * n as f64),
+		"WSMA" => ema("WSMA", 1.0 / n as f64, 2.0 * n as f64),
+		"TSI" => match par {
+			Par::LL(s, l) => Some(Box::new(RefTsi { last: i0, a_short: 2.0 / (*s as f64 + 1.0), a_long: 2.0 / (*l as f64 + 1.0), m: [0.0; 2], me: [0.0; 2], a: [0.0; 2], ae: [0.0; 2] })),
+			_ => None,
+		},
+		"Vidya" => Some(Box::new(RefVidya { h: Hist::new(i0), n, y: Ap::exact(i0), dyadic: i0.abs() <= 16_777_216.0 && (i0 * 65536.0).fract() == 0.0 })),
+		"TR" | "ADI" => match init {
+			In::C(c) => {
+				let term = clv_ap(c) * Ap::exact(c.volume as f64);
+				Some(Box::new(RefCandle { kind: if name == "TR" { "TR" } else { "ADI" }, n, prev_close: c.close as f64, terms: Vec::new(), init_term: term, mag: term.mag() }))
+			}
+			_ => None,
+		},
+		_ => None,
+	}
+}
